@@ -186,6 +186,22 @@ def run(ctx):
                     n_api = sum(1 for _ in p2.traces(io.BytesIO(d.blob), table))
                 except Exception as ex:
                     n_api = repr(ex)
+                # every listing that takes a table honours it: the formatted listings equal the formatted raw listings
+                for what, raw_m, fmt_m, fm in (('traces', 'traces', 'formatted_traces', '_format_trace'),
+                                               ('callstacks', 'callstacks', 'formatted_callstacks', '_format_callstack')):
+                    try:
+                        pa, pb = PyKdebugParser(), PyKdebugParser()
+                        pa.color = pb.color = False
+                        want_l = [getattr(pa, fm)(x) for x in getattr(pa, raw_m)(io.BytesIO(d.blob), table)]
+                        got_l = list(getattr(pb, fmt_m)(io.BytesIO(d.blob), table) if j == 0 else
+                                     getattr(pb, fmt_m)(kdebug=io.BytesIO(d.blob), trace_codes=table))
+                    except Exception as ex:
+                        want_l, got_l = [], ['raised ' + repr(ex)]
+                    if want_l != got_l:
+                        ctx.violation('C19/formatted-listing-ignores-table/' + what,
+                                      '%s(file, table) lists %d lines, the raw listing formatted gives %d (first difference: %r vs %r)'
+                                      % (fmt_m, len(got_l), len(want_l), next((g_ for g_, w_ in zip(got_l, want_l) if g_ != w_), got_l[-1:] ),
+                                         next((w_ for g_, w_ in zip(got_l, want_l) if g_ != w_), want_l[-1:])), {'kind': 'text', 'text': text[:2000]})
                 if n_api != n_direct:
                     ctx.violation('C19/api-ignores-table', 'traces(file, table) gave %s traces, TracesParser(table) %d'
                                   % (n_api, n_direct), {'kind': 'text', 'text': text[:2000]})
